@@ -55,6 +55,7 @@ type Solver struct {
 
 	isDef      map[int]bool
 	pendingPop bool
+	curMS      int
 }
 
 type level struct {
@@ -113,6 +114,7 @@ func (s *Solver) start() error {
 	}(s.out, s.lines)
 	s.isDef = map[int]bool{}
 	s.nq = 0
+	s.curMS = s.TimeoutMS
 	s.buf.Reset()
 	if s.Kind == "cvc5" {
 		s.buf.WriteString("(set-logic ALL)\n")
@@ -319,7 +321,7 @@ func (s *Solver) roundTrip(cmd string) ([]string, bool) {
 		return nil, false
 	}
 	var res []string
-	deadline := time.NewTimer(time.Duration(s.TimeoutMS)*time.Millisecond + 10*time.Second)
+	deadline := time.NewTimer(time.Duration(s.curMS)*time.Millisecond + 10*time.Second)
 	defer deadline.Stop()
 	for {
 		select {
@@ -339,8 +341,18 @@ func (s *Solver) roundTrip(cmd string) ([]string, bool) {
 
 // Check runs check-sat on the current stack plus extra assumptions (asserted
 // in a temporary scope when extra is non-empty).
-func (s *Solver) Check(extra ...*sym.Term) Result {
+func (s *Solver) Check(extra ...*sym.Term) Result { return s.CheckT(0, extra...) }
+
+// CheckT is Check with a per-query soft timeout override (ms; 0 = default).
+func (s *Solver) CheckT(ms int, extra ...*sym.Term) Result {
 	t0 := time.Now()
+	if ms <= 0 {
+		ms = s.TimeoutMS
+	}
+	if ms != s.curMS && s.Kind != "cvc5" {
+		fmt.Fprintf(&s.buf, "(set-option :timeout %d)\n", ms)
+		s.curMS = ms
+	}
 	if s.nq > 4000 && s.Depth() == 0 {
 		s.restart() // bound solver memory growth from accumulated definitions
 		s.Stats.Restarts--
